@@ -178,7 +178,20 @@ def run(tier):
     glyphs_files = [s for s in corpus if s.endswith(".glyphs") and "include" not in open(s, errors="replace").read()]
     ufos = [s for s in corpus if s.endswith(".ufo")]
     gen_static = [s for s in gensrc.sources_for("C20", chk, 8 if nq else 150, fams=["static-basic", "static-noorder", "kern-static", "c06-partial-notdef-mid", "c06-full-notdef-first", "c17-special-static"]) if s.endswith(".ufo")]
-    designs = [("glyphs", s) for s in (rng.sample(glyphs_files, 26) if nq else glyphs_files)]
+    # generated designs rendered as Glyphs 3 files (no manifest next to them: every route compiles them with default flags)
+    import sys
+    sys.path.insert(0, common.ROOT)
+    from gen import families, glyphs as glyphs_render
+    gen_glyphs = []
+    gfams = ["var1-onaxis", "var2-corners", "var1-nonexport", "kern-var1", "marks-var1", "marks-propagate", "static-basic", "var2-nested-xform", "var1-cubic", "var1-intermediate"]
+    for i in range(10 if nq else 200):
+        model = families.make(gfams[i % len(gfams)], chk.seed, 5000 + i, overrides={"mapped": 0.0, "vertical": False, "explicit_metrics": False})
+        if glyphs_render.expressible(model):
+            d = os.path.join(chk.scratch, "gg", f"g{i}")
+            path = glyphs_render.render(model, d)
+            os.remove(os.path.join(d, "manifest.json"))
+            gen_glyphs.append(path)
+    designs = [("glyphs", s) for s in (rng.sample(glyphs_files, 26) if nq else glyphs_files)] + [("glyphs", s) for s in gen_glyphs]
     designs += [("ufo", s) for s in (rng.sample(ufos, 8) if nq else ufos)] + [("ufo", s) for s in gen_static]
     # fixtures that exercise source preprocessing are always in
     for must in ("glyphs3/SmartComponents.glyphs", "glyphs3/CornerComponents.glyphs", "glyphs3/glyph-with-bracket-component.glyphs", "glyphs2/WghtVar.glyphs", "glyphs3/WghtVar.glyphs"):
